@@ -45,7 +45,7 @@ def failing_theorems(ctx, lean_file):
         return []
     decls = []
     for i, l in enumerate(open(lean_file), 1):
-        m = re.match(r'\s*(?:theorem|example|def|lemma)\s+(\S+)', l)
+        m = re.match(r'\s*(?:theorem|def|lemma)\s+(\S+)', l)
         if m:
             decls.append((i, m.group(1)))
         elif re.match(r'\s*example\b', l):
